@@ -408,14 +408,15 @@ def main(argv):
         # gen_c09 / gen_c10 / gen_dirs: Props/C01_C04 (OracleContract for every C04 provider mix) instantiates the
         # inner contract with the four shipped direction providers (Props/DirectionsLoop)
         gen_scripts=['gen_c15.py', 'gen_c06.py', 'gen_c05.py', 'gen_c07.py', 'gen_c04.py', 'gen_c01.py',
-                     'gen_c09.py', 'gen_c10.py', 'gen_dirs.py'],
+                     'gen_c09.py', 'gen_c10.py', 'gen_dirs.py', 'gen_c08.py', 'gen_c11.py'],
         modules=['Alpaqa.Props.C01', 'Alpaqa.Props.C01_Alm', 'Alpaqa.Props.C01_C04', 'Alpaqa.Props.C01_Zerofpr',
-                 'Alpaqa.Props.C01_Pantr', 'Alpaqa.Props.C01_Pantr_C04'], driver=None,
+                 'Alpaqa.Props.C01_Pantr', 'Alpaqa.Props.C01_Pantr_C04', 'Alpaqa.Props.C01_Fista',
+                 'Alpaqa.Props.C01_Zerofpr_C04', 'Alpaqa.Props.PantrNewtonTR'], driver=None,
         extra_sources=['Alpaqa/Gen/C15.lean', 'Alpaqa/Gen/C06.lean', 'Alpaqa/Gen/C01.lean', 'Alpaqa/Proofs/VecLemmas.lean',
                        'Alpaqa/Proofs/C01Panoc.lean', 'Alpaqa/Proofs/C01PanocOn.lean', 'Alpaqa/Proofs/PanocInvOn.lean', 'Alpaqa/Proofs/PanocFuel.lean', 'Alpaqa/Proofs/PanocSized.lean', 'Alpaqa/Proofs/C07.lean', 'Alpaqa/Proofs/C07Run.lean',
                        'Alpaqa/Proofs/PanocInv.lean', 'Alpaqa/Model/Panoc.lean', 'Alpaqa/Model/C07.lean', 'Alpaqa/Props/C04.lean',
                        'Alpaqa/Props/DirectionsLoop.lean', 'Alpaqa/Proofs/C01Zerofpr.lean', 'Alpaqa/Model/Zerofpr.lean',
-                       'Alpaqa/Model/Pantr.lean'],
+                       'Alpaqa/Model/Pantr.lean', 'Alpaqa/Proofs/C01Fista.lean', 'Alpaqa/Model/Fista.lean', 'Alpaqa/Model/C11.lean'],
         harness_name='almrun', harness_sources=[], harness_builder=lambda: (exe, log),
         gen_ops=gen_ops, monitor=monitor, nontrivial=nontrivial, extra_stage=extra_stage,
         n_quick=120, n_thorough=12000,
